@@ -33,7 +33,7 @@ SUFFIXES = [".x", ".tar", ".a b", ".é", ".%20", ".a.b", ".", "", ".x/y", "x", "
 def plan(tier, seed):
     thorough = tier == "thorough"
     n = 16 if thorough else 8
-    return [{"variant": "c" if s % 2 else "py", "part": "algebra", "shard": s, "nshards": n, "params": {"n": 40000 if thorough else 5000}} for s in range(n)]
+    return [{"variant": "c" if s % 2 else "py", "part": "algebra", "shard": s, "nshards": n, "params": {"n": 150000 if thorough else 5000}} for s in range(n)]
 
 
 def strip1(parts):
